@@ -19,7 +19,7 @@ def plan(tier, seed):
     for opi in range(H.NOPS):
         if H.OPS[opi][0] == "havespace":
             continue
-        for v in ['a"', "a\\", "{5", "\r\n", "é€", "a\0", "}x"]:
+        for v in ['a"', "a\\", "{5", "\r\n", "é€", "a\0", "}x", "a\n", "\n", "a\r", "\0\n", ".\n", "\n\0"]:
             cps = [ord(ch) for ch in v] + [0, 0]
             wit.append(dict(file=F, f="c08", args=dict(c0=cps[0], c1=cps[1], c2=0, other=1, size=0),
                             env={"C08_OP": opi, "C08_VLEN": len(v)}))
